@@ -36,7 +36,7 @@ MANIFEST = {
             'listener is registered only after post_bootstrap resumed normally and TAKEOWNERSHIP is submitted right after the subscription resumes. '
             'launch(): a caller-supplied data directory is never put on to_delete nor given a shutdown trigger; without one, exactly the mkdtemp directory is DataDirectory, to_delete and the target of the shutdown trigger.',
     'level_note': 'Assumed (A): Deferred/inlineCallbacks/timer semantics, process transport, event text tokenisation uninterpreted, Tor sends no event before '
-                  'acknowledging SETEVENTS. Bounded (B): permutations of the event set with real temp directories in the twin; launch() is under contract for the data-directory clauses (six units: caller directory / temporary directory x ControlPort 0 / TCP / default unix socket, real TorProcessProtocol.__init__ inlined) with tor_binary, socks_port, user, connection_creator and the TorConfig given (opaque config object; its attribute writes are recorded); launch()'s own TorConfig(), find_tor_binary, available_tcp_port and the unix: control-socket directory checks only in the twin.',
+                  'acknowledging SETEVENTS. Bounded (B): permutations of the event set with real temp directories in the twin; launch() is under contract for the data-directory clauses (six units: caller directory / temporary directory x ControlPort 0 / TCP / default unix socket, real TorProcessProtocol.__init__ inlined) with tor_binary, socks_port, user, connection_creator and the TorConfig given (opaque config object; its attribute writes are recorded); the TorConfig() that launch() builds itself, find_tor_binary, available_tcp_port and the unix: control-socket directory checks only in the twin.',
 }
 
 
